@@ -234,6 +234,7 @@ func init() {
 		},
 		zz + "FSMkdir":     nop,
 		zz + "FSTouch":     nop,
+		zz + "FSSymlink":   nop,
 		zz + "FSEnterTemp": nop,
 		"os.Setenv": func(w *Worker, _ *ssa.Function, args []Value, _ ssa.CallInstruction) Value {
 			return IfaceV{} // environment comes from the job configuration (os.Getenv intrinsic)
